@@ -22,6 +22,12 @@ def fld(n, base=CC):
     return ('f', base, n)
 
 
+def strip_cast(t):
+    while t is not None and t[0] == 'cast':
+        t = t[2]
+    return t
+
+
 def run(ck):
     ck.rule('C19.a', 'every data[] access of the ring operations is proved in range from the invariant and the path guards; data[tail] is read only when tail != datasize (non-empty)')
     ck.rule('C19.b', 'index-range invariant head < datasize, tail <= datasize is preserved by every operation (stores are % capacity, the sentinel, head, or 0); size() is within [0, capacity] and >= 1 when non-empty')
@@ -97,6 +103,25 @@ def run(ck):
             if not (h2 == C(0) and t2 == ('v', 'size') and d2 == ('v', 'size')):
                 ok = False
         ck.verdict(ok, 'C19.b', 'octet_ring_init', cast.where(u.fn('octet_ring_init')), 'init: head = 0, tail = datasize = size (empty)' if ok else 'init does not establish head = 0, tail = datasize = size')
+        # the clearing loop of init writes only data[0 .. size)
+        bad_i = None
+        nst = 0
+        SZ = L(('v', 'size'))
+        for p in ps:
+            facts = eng.path_facts(p)
+            for e in p.effects:
+                if e.kind == 'store' and e.name[0] == 'i' and e.inloop:
+                    nst += 1
+                    base = strip_cast(e.name[1])
+                    if base not in (('v', 'buf'), fld('data')):
+                        bad_i = bad_i or 'init writes through %s' % fmt(e.name[1])
+                    idx = L(e.name[2])
+                    if not (eng.entails(facts, -idx) and eng.entails(facts, idx + 1 - SZ)):
+                        bad_i = bad_i or ('init writes element [%s] under {%s}: not proved inside the %s elements handed in (one element beyond the buffer is written)'
+                                          % (idx, '; '.join(fmt(c) for c in p.cond_terms()), 'size'))
+        if nst:
+            ck.verdict(bad_i is None, 'C19.a', 'octet_ring_init', cast.where(u.fn('octet_ring_init')),
+                       'the clearing loop writes only elements [0, size)' if bad_i is None else bad_i)
     # iterator construction
     it = ('v', 'iter')
     if u.fn('octet_ring_iter'):
